@@ -447,12 +447,16 @@ def submit_incl(ctx, pool):
         for d in ("/usr/local/include", "/usr/include/x86_64-linux-gnu", "/usr/include"):
             if os.path.exists("%s/%s.h" % (d, n)):
                 raise Infra("%s/%s.h exists on this machine; scenario header names would collide" % (d, n))
-    strides = dict(R1=5, R2=24, C=12, M=36, G=2, P=2) if q else dict(R1=1, R2=1, C=1, M=1, G=1, P=1)
-    jobs = dict(gen=[], ctl=[])
+    strides = dict(R1=5, R2=24, C=12, M=36, G=2, P=2) if q else dict(R1=1, R2=2, C=1, M=2, G=1, P=1)
+    jobs = dict(gen=[], ctl=[], mc=[])
     for fam, nopt in FAMS:
         out = os.path.join(ctx.scratch, "incl-%s.ndjson" % fam)
         cfg = ctx.cfg("pp", "Include_gen.cfg", Fam='"%s"' % fam, NOpt=nopt, Seed=ctx.seed, Stride=strides[fam])
         jobs["gen"].append((fam, out, cfg, pool.submit(ctx.tlc, "pp", "Include", cfg, env=dict(OUT=out), workers=2 if q else 4, timeout=1500)))
+        if not q and strides[fam] > 1:      # replay every other world, but model-check the whole family
+            full = ctx.cfg("pp", "Include_mc.cfg", Fam='"%s"' % fam, NOpt=nopt)
+            jobs["mc"].append(pool.submit(ctx.tlc_expect_ok, "pp", "Include", full, "include shortcuts change the token stream in the model (family %s)" % fam,
+                                          workers=4, timeout=1500))
     # sensitivity controls: the pinned algorithms must be rejected by TLC
     for name, fam, nopt, kw in CONTROLS:
         cfg = ctx.cfg("pp", "Include_mc.cfg", Fam='"%s"' % fam, NOpt=nopt, Stride=2 if fam == "G" else (24 if fam in ("C", "M") else 12), **kw)
@@ -479,6 +483,8 @@ def finish_incl(ctx, tree, jobs):
             b = behs[len(behs) // 3]
             ctx.sample(dict(kind="include scenario", family=fam, options=b["kinds"], files={"d%d/%s.h" % (f["d"], f["n"]): f["text"] for f in b["files"]},
                             main=b["main"], expected_tokens=b["exp"]))
+    for fut in jobs["mc"]:
+        fut.result()
     for name, fut in jobs["ctl"]:
         if fut.result().ok:
             raise Infra("sensitivity control failed: TLC accepts the pinned algorithm (%s)" % name)
